@@ -353,7 +353,7 @@ Next ==
   \/ \E op \in {"add", "sub", "mul", "div"} : \E i \in 1..Len(objs) : \E c \in Scalars :
         \/ IBinS(op, i, c) \/ \E side \in {"l", "r"} : BinS(op, i, c, side)
   \/ \E i \in 1..Len(objs) :
-        \/ \E n \in {-2, -1, 0, 1, 2, 3} : PowI(i, n)
+        \/ \E n \in {-2, -1, 0, 1, 2, 3, 4} : PowI(i, n)
         \/ \E f \in {"neg", "square", "reciprocal", "clone", "zeros_like"} : Unary(f, i)
         \/ \E ix \in IdxCat : GetItem(i, ix)
         \/ \E ix \in IdxCat : \E j \in 1..Len(objs) : SetItem(i, ix, j) \/ SetItemA(i, ix, j)
